@@ -56,6 +56,10 @@ mut("pool-run-under-peek", ["C07"], TP, "            auto qFront = queue.begin()
 mut("pool-stop-no-join", ["C08", "C07"], TP, "            thread->join();\n            delete thread;\n        }\n\n        m_pool.clear();\n    }\n\n    clear();", "            thread->std_thread().detach();\n        }\n\n        m_pool.clear();\n    }\n\n    clear();", "stop() detaches instead of joining")
 mut("pool-no-max", ["C08"], TP, "(m_maxThreadCount > m_pool.size() || m_maxThreadCount < 0)", "(m_maxThreadCount >= m_pool.size() || m_maxThreadCount < 0)", "one worker too many")
 mut("pool-stop-keeps-queue", ["C08", "C07"], TP, "        m_pool.clear();\n    }\n\n    clear();\n}", "        m_pool.clear();\n    }\n}", "queued tasks survive stop()")
+mut("pool-wait-without-loop", ["C07"], TP,
+    "            m_threadPool->m_condition.wait(locker, [&]() {\n                auto passedTime = time() - m_pooledThread->getLastActiveTime();\n                auto expiryTimeout = m_threadPool->getExpiryTimeout();\n\n                isExpired = (expiryTimeout >= 0) && (passedTime > expiryTimeout);\n\n                return !queue.empty() || !m_threadPool->isRunning() || isExpired;\n            });",
+    "            auto ready = [&]() {\n                auto passedTime = time() - m_pooledThread->getLastActiveTime();\n                auto expiryTimeout = m_threadPool->getExpiryTimeout();\n\n                isExpired = (expiryTimeout >= 0) && (passedTime > expiryTimeout);\n\n                return !queue.empty() || !m_threadPool->isRunning() || isExpired;\n            };\n\n            if (!ready()) {\n                m_threadPool->m_condition.wait(locker);\n                ready();\n            }",
+    "the worker waits once instead of in a predicate loop: correct as long as every wake-up is a notification that made the predicate true; a spurious wake-up (or update()) makes it pop an empty queue")
 # (a worker that drains the queue after stop() was requested is NOT a violation: the tasks still run before stop() returns)
 mut("thread-finished-early", ["C20"], "src/threading/Thread.cpp", "        runnable->run();\n        delete runnable;\n\n        m_isFinished = true;", "        m_isFinished = true;\n        runnable->run();\n        delete runnable;\n")
 mut("thread-template-finished-early", ["C20"], "include/tulz/threading/Thread.h", "            ptr(std::forward<Args>(args)...);\n            m_isFinished = true;", "            m_isFinished = true;\n            ptr(std::forward<Args>(args)...);")
